@@ -27,6 +27,7 @@ class Translator:
         self.apps = {}           # fname -> list of (arg T, z3 arg, z3 app)
         self.axioms = []
         self.z3vars = {}
+        self.big_axioms = True   # False: big operators are pure uninterpreted functions (congruence only) - a weaker, still sound theory
 
     # -- helpers
     def fn(self, name, dom, rng):
@@ -263,7 +264,7 @@ class Translator:
             self.axioms.append(z3.Implies(zhi <= zlo, r == 1))
             if _pos(body):
                 self.axioms.append(r > 0)
-        else:
+        elif self.big_axioms:
             # witness and bound axioms; the quantified bound is instantiated by z3 (MBQI/e-matching)
             w = self.fn('wit_%s_%d' % (op, bid), dom, z3.IntSort())(zlo, zhi, *zfv)
             zb_w = self.tr(tm.subst(body, {bv: _IntTerm(w, self)}))
@@ -400,10 +401,11 @@ def model_eval(model_dict, t):
     return _zval(model.eval(tr.tr(t), model_completion=True))
 
 
-def check_sat(formulas, timeout_ms=20000, want_model=False, use_cvc5=True, tactic=None):
+def check_sat(formulas, timeout_ms=20000, want_model=False, use_cvc5=True, tactic=None, big_axioms=True):
     """Satisfiability of the conjunction of T formulas (with axioms of everything mentioned)."""
     t0 = time.time()
     tr = Translator()
+    tr.big_axioms = big_axioms
     zs = [tr.tr(f) for f in formulas]
     s = z3.Solver() if tactic is None else z3.Tactic(tactic).solver()
     s.set('timeout', int(timeout_ms))
@@ -457,7 +459,18 @@ def _cvc5(solver, timeout_ms):
         os.unlink(path)
 
 
-def prove(hyps, goal, timeout_ms=20000, want_model=True):
+def prove(hyps, goal, timeout_ms=20000, want_model=True, big_axioms=True):
     """Validity of  /\\ hyps => goal.  Returns Result with status 'unsat' (= proved), 'sat'
     (= refuted, with model) or 'unknown'."""
-    return check_sat(list(hyps) + [tm.not_(goal)], timeout_ms=timeout_ms, want_model=want_model)
+    return check_sat(list(hyps) + [tm.not_(goal)], timeout_ms=timeout_ms, want_model=want_model, big_axioms=big_axioms)
+
+
+def prove_weak_first(hyps, goal, timeout_ms=20000):
+    """First in the weaker theory where max/min binders are plain uninterpreted functions (their quantified
+    witness/bound axioms make quantified loop invariants time out); a proof there is a proof.  Only `unsat` is
+    taken from the weak theory - its `sat` models may be spurious - then the full theory is tried."""
+    r = check_sat(list(hyps) + [tm.not_(goal)], timeout_ms=min(timeout_ms, 10000), want_model=False, big_axioms=False, use_cvc5=False)
+    if r.status == 'unsat':
+        r.backend = 'z3 (binders as UF)'
+        return r
+    return check_sat(list(hyps) + [tm.not_(goal)], timeout_ms=timeout_ms, want_model=True)
